@@ -267,7 +267,7 @@ def run():
     for r in recs:
         if r['kind'] == 'stage' and r['proc'] == 'worker' and 'user' in r['supplied'].values():
             ctx.nontrivial((r['variant'], r['route'], tuple(sorted(r['supplied'].items())), r['mode'], r['stage'], r['caller']))
-    ctx.sample([r for r in recs if r['kind'] == 'stage' and r['proc'] == 'worker'][0])
+    ctx.sample_first([r for r in recs if r['kind'] == 'stage' and r['proc'] == 'worker'])
     ctx.sample([r for r in recs if r['kind'] == 'run'][5])
     ctx.leg('C', runs=len(items), stage_records=sum(1 for r in recs if r['kind'] == 'stage'),
             edges_observed=sorted(set((r['caller'], r['stage']) for r in recs if r['kind'] == 'stage')))
